@@ -21,7 +21,8 @@ PROPS = {
                        required=["create_ok", "multi_msg", "identical_in_tx", "identical_in_block", "identical_later",
                                  "invalid_rej", "poison_rej", "rest_nonempty", "after_rollback",
                                  "fid_multi_entry", "fid_four_entries", "fid_share_digest", "fid_identical_entries",
-                                 "fid_algo_only", "fid_empty_meta", "fid_long_meta", "fid_long_digest", "fid_reordered"],
+                                 "fid_algo_only", "fid_empty_meta", "fid_long_meta", "fid_long_digest", "fid_reordered",
+                                 "fid_padded", "fid_mixed_case"],
                        gen_cfg="users=2",
                        assumptions=["TLC 1.8, SANY, CommunityModules Json", "Go toolchain, cosmos-sdk baseapp",
                                     "harness dump of the record store after every transaction",
